@@ -18,6 +18,10 @@ type Storage struct {
 	// FailGet / FailSet / FailDelete: 1-based indices of the calls that return an injected error
 	FailGet, FailSet, FailDelete map[int]bool
 	nGet, nSet, nDel             int
+	// GarbleGet: 1-based indices of the Get calls that hand out a damaged (cut-off) copy of the record, without an
+	// error - a short read, a foreign value under the key; Garbled counts those that met a record
+	GarbleGet map[int]bool
+	Garbled   int
 	Log                          []string
 	NoTTL                        bool // ignore TTLs (a backend that never expires)
 	// Retain: keep the value slice passed to Set and hand the same slice out from Get, as gofiber's in-process memory
@@ -59,6 +63,10 @@ func (s *Storage) Get(key string) ([]byte, error) {
 			out = e.v
 			if !s.Retain {
 				out = append([]byte(nil), e.v...)
+			}
+			if s.GarbleGet[n] && len(e.v) > 0 {
+				out = append([]byte{}, e.v[:len(e.v)/2]...)
+				s.Garbled++
 			}
 		}
 	}
